@@ -790,6 +790,7 @@ contract(
     "skgenome/subtract.py::_subtraction",
     params=dict(table=_KEEP, other=_EXCL),
     yields=_ROW,
+    ghost=dict(eager_triggers=True),
     requires=[_SORTED.replace("T", "other"),
               "forall(0, len(table), lambda q: table.start[q] < table.end[q])"],
     loops={
